@@ -150,6 +150,18 @@ def stat_getters(st):
     return out
 
 
+_SE = []
+
+
+def _strategy_enum():
+    if not _SE:
+        import enum
+        from pydsol.core.simulator import ErrorStrategy
+        _SE.append(enum.IntEnum("OnError", {"LOG": ErrorStrategy.LOG_AND_CONTINUE, "WARN": ErrorStrategy.WARN_AND_CONTINUE,
+                                            "PAUSE": ErrorStrategy.WARN_AND_PAUSE}))
+    return _SE[0]
+
+
 class InjectedAbort(BaseException):
     """a handler failure that is not an Exception subclass (like KeyboardInterrupt or a framework's abort signal)"""
 
@@ -284,6 +296,9 @@ class Harness:
                 self.sim.set_error_strategy(es, log_level=60)      # explicit log level (above CRITICAL: stays quiet)
             elif how == "level_pos":
                 self.sim.set_error_strategy(es, 60)
+            elif how == "intenum":
+                # the model's own enumeration of the strategies (an IntEnum whose members equal the library's constants)
+                self.sim.set_error_strategy(_strategy_enum()(es))
             else:
                 self.sim.set_error_strategy(es)
 
@@ -684,6 +699,29 @@ class Harness:
         self.pause_at = None
         self.pause_gate.open.set()
         return out, stop_out, parked
+
+    def stop_from_time_changed(self, k):
+        """arm a subscriber of the simulator's TIME_CHANGED notification that calls stop() inside its k-th notification from
+        now on (a pause requested by a listener, on the run thread, between the announcement of a time and its first event)"""
+        from pydsol.core.pubsub import EventListener
+        from pydsol.core.interfaces import SimulatorInterface
+        h = self
+        if getattr(self, "_lstop", None) is None:
+            class Stopper(EventListener):
+                left = 0
+
+                def notify(self, event):
+                    if self.left > 0:
+                        self.left -= 1
+                        if self.left == 0:
+                            h.lstop_at = num(event.timestamp) if hasattr(event, "timestamp") else None
+                            h.lstop_executed = len(h.hlog)
+                            h.lstop_out = h.cmd("stop")
+            self._lstop = Stopper()
+        self.sim.remove_listener(SimulatorInterface.TIME_CHANGED_EVENT, self._lstop)
+        self.sim.add_listener(SimulatorInterface.TIME_CHANGED_EVENT, self._lstop)
+        self._lstop.left = k
+        self.lstop_out = self.lstop_at = self.lstop_executed = None
 
     def update_seeds(self, replication_nr):
         """what an experiment driver does between replications"""
